@@ -70,6 +70,8 @@ def build(case):
     nsw = int(rng.integers(3, 6))
     rate = [100., 30000., 30000.185185, 29999.9537][int(rng.integers(0, 4))]      # calibrated (fractional) rates too
     mat_mode = {m: ['all', 'some', 'none'][int(rng.integers(0, 3))] for m in ('wm', 'similar', 'wmi')}
+    if case['seed'][-1] % 7 == 0:
+        mat_mode = {m: 'all' for m in mat_mode}          # (cases that re-use an output folder: see _run)
     tsv_mode = {t: ['all', 'some', 'none'][int(rng.integers(0, 3))] for t in TSVS}
     dt_ind = ['int32', 'uint32', 'int64', 'mixed'][int(rng.integers(0, 4))]
     huge = bool(case.get('huge')) and k >= 2      # id files beyond 256 KiB in a probe with a non-zero offset
@@ -156,6 +158,10 @@ def _run(case, ctx, d, which):
             style = case['seed'][-1] % 4
             sd = os.path.join(d, ['probe%d' % p, 'pröbe %d' % p, 'M7[day%d]*' % p, (['right', 'left', 'mid', 'aux'] + ['zz%d' % q for q in range(12, 2, -1)])[p]][style])
         s.write(sd)
+        if case['seed'][-1] % 5 == 1 and p < len(specs) - 1:
+            # the folder is the (since curated) output of an earlier merge: it still holds that merge's per-cluster probe
+            # table, shorter than the id range in use now
+            np.save(os.path.join(sd, 'cluster_probes.npy'), np.zeros(max(1, int(s.clusters.max()) - 1), dtype=np.int32))
         subdirs.append(sd)
     out = os.path.join(d, 'merged')
     if case['seed'][-1] % 6 == 4:
@@ -187,6 +193,17 @@ def _run(case, ctx, d, which):
     mon = monitors.CURRENT
     if mon.fs:
         mon.fs.watch(*subdirs_s)
+    if k >= 2 and case['seed'][-1] % 7 == 0 and all(v == 'all' for v in info['mat_mode'].values()):
+        # (only when every probe ships every optional matrix: otherwise the second merge does not rewrite a matrix file that
+        # the first left behind, and the stale file of another shape makes the returned model unloadable - re-used output
+        # folders are not part of the statement)
+        # history: the first probe alone was merged into this output directory before (a one-probe merge is allowed);
+        # the merge of all probes is the one judged - and the inputs must come out of it untouched
+        ctx.cell('output_dir_holds_single_probe_merge')
+        r0 = call(lambda: Merger(subdirs[:1], out).merge())
+        if r0.ok:
+            call(r0.value.close)
+        before = [snapshot(sd) for sd in subdirs_s]
     if k >= 2 and case['seed'][-1] % 7 == 6:
         # history: the output directory already holds a merge of the same probes in the opposite order (same total
         # shapes, other block layout); the merge in the given order is the one judged
